@@ -1201,7 +1201,7 @@ def run(ctx):
     if not os.environ.get("VERIF_SKIP_PROOF"):
         ctx.try_proof()
     exe = vlib.harness_build(["c15"])["c15"]
-    vlib.coq_make(["Wire/Body.vo", "Wire/Ops.vo"])
+    vlib.coq_make(["Wire/Body.vo", "Wire/Ops.vo", "Wire/BodyExamples.vo", "Wire/BodyAdvanceExamples.vo"])     # the examples are part of the check
     drv = vlib.ocaml_build("wire")
     r = ctx.sub_rng("c15")
     # only types this harness binary can dispatch (the catalogue may be regenerated next to a running check)
@@ -1217,7 +1217,7 @@ def run(ctx):
         ctx.tie_broken("c15 harness does not report its types", str(ans)[:500])
         return
     ctx.extra["types"] = {"catalogue": len(cat), "mix": len(mix)}
-    n_generic, n_decode, n_long, n_tree = (12000, 12000, 2500, 3000) if thorough else (2400, 2600, 500, 700)
+    n_generic, n_decode, n_long, n_tree = (30000, 35000, 6000, 9000) if thorough else (6000, 7000, 1200, 1800)
     ctx.rule = ("case = one history on one real body/parser, run line by line against the extracted model. quick: %d generic (BNEW, <= 12 builder "
                 "operations: typed push, push_param2..5 with one or with different types, push_params, push_variant, push_old_param(s), reset; "
                 "30%% with a failing element at a random inner position; near-miss signatures; parser walk with matching, mismatching, over-long "
